@@ -339,7 +339,11 @@ func (sy *Sym) execBlock(fn *ssa.Function, b *ssa.BasicBlock, pred *ssa.BasicBlo
 	}
 	st.visit[b]++
 	if st.visit[b] > 1+sy.opts.LoopBound {
-		k("abort", fmt.Sprintf("loop: block %d of %s re-entered", b.Index, fname(fn)), nil, st, token.NoPos)
+		kind := "abort"
+		if sy.opts.LoopBound > 0 {
+			kind = "cut" // bounded unrolling: the path is abandoned, not misunderstood
+		}
+		k(kind, fmt.Sprintf("loop: block %d of %s re-entered", b.Index, fname(fn)), nil, st, token.NoPos)
 		return
 	}
 	// phis first (parallel assignment)
